@@ -514,7 +514,8 @@ class PathEngine:
                     env2 = dict(env)
                     self._bind_fresh(node.info["target"], nid, env2)
                     go("body", env=env2, items=items + [("ev", ev)], visits=v2)
-                    go("done", visits=v2)
+                    ev0 = PEvent("iter", node, recv=it, label=ev.label + " (zero iterations)", value="zero")
+                    go("done", items=items + [("ev", ev0)], visits=v2)
                 else:
                     # one iteration done: record and leave (longer runs repeat the same body)
                     go("done", trunc=True)
@@ -617,6 +618,8 @@ class PathEngine:
             short = name.split(".")[-1].rstrip("()")
             if name.startswith("builtins.") and short in PURE_BUILTINS:
                 pure, fname = True, short
+            elif name.startswith("builtins.") and short in self.kinds.parent:
+                pure, fname = True, "new " + short
             elif name in PURE_LIB:
                 pure, fname = True, name
             elif isinstance(f, ast.Attribute) and f.attr in PURE_METHODS:
